@@ -10,12 +10,12 @@ DUR = [0.0, 1e-10, 1e-9, 0.25, 0.5, 0.75, 1.0, 1.25, 2.0, 3.5, 1e6, 0.1, 0.3, 1.
 class C03(S4UCheck):
     pid = 'C03'
     rule = ('seeded plans: 2-6 actors on 1-3 hosts (1-2 cores) with links; ops sleep_for(d), sleep_until(T), exec (alone '
-            'or sharing a core), host-to-host comms, asynchronous execs waited with wait/wait_until, semaphore '
+            'or sharing a core), host-to-host comms, asynchronous execs waited with wait/wait_until/wait_for(d), semaphore '
             'acquire_timeout, kill times; durations from {0, below precision, precision, dyadic fractions, non-dyadic, '
             '1e6, values equal to another actor\'s} so that many events share one date. Invariants: every clock read is '
             '>= the previous one in the global order, each time advance has delta >= 0 and lands on clock+delta; every '
             'undisturbed sleep_for(d) returns at call+max(d,precision) (0 -> immediately), sleep_until(T) at max(T,call); '
-            'kill times fire at their date; acquire_timeout timeouts at call+t; for each activity call <= start <= finish '
+            'kill times fire at their date; acquire_timeout and wait_for/wait_until timeouts at call+t (resp. max(T, call)); for each activity call <= start <= finish '
             '<= return, exec duration >= flops/(speed*cores_used), comm duration >= route latency. non-trivial = at '
             'least two timers/actions completed at one date; distinct = call sequence hash')
     assumptions = ['tolerance 2e-9 (twice precision/timing): now += delta rounds in double',
@@ -52,7 +52,8 @@ class C03(S4UCheck):
                     ops.append(['exec_async', s, r.randint(1, 8) * 0.125e9])
                     if r.chance(0.5):
                         ops.append(['sleep', r.choice(DUR[:10])])
-                    ops.append(r.choice([['wait', s], ['wait_until', s, r.randint(0, 24) * 0.25]]))
+                    ops.append(r.choice([['wait', s], ['wait_until', s, r.randint(0, 24) * 0.25],
+                                         ['wait_for', s, r.choice(DUR[:10])]]))
                     ops.append(['wait', s])
                 elif c < 11:
                     ops.append(['acquire_timeout', 's0', r.choice(DUR[3:10])])
@@ -123,6 +124,13 @@ class C03(S4UCheck):
                     dates[r.clock] = dates.get(r.clock, 0) + 1
                     if not close(r.clock, want):
                         v.append(('timer_date', 'acquire_timeout(%r) called at %r timed out at %r' % (float(c.args[1]), c.clock, r.clock)))
+                elif r.kind in ('wait_for', 'wait_until') and r.kv.get('exc') == 'Timeout':
+                    # the timer of a timed wait fires at its date (zero and sub-precision timeouts: at the call date)
+                    want = c.clock + float(c.args[1]) if r.kind == 'wait_for' else max(float(c.args[1]), c.clock)
+                    dates[r.clock] = dates.get(r.clock, 0) + 1
+                    if not close(r.clock, want):
+                        v.append(('timer_date', '%s(%r) called at %r timed out at %r instead of %r' %
+                                  (r.kind, float(c.args[1]), c.clock, r.clock, want)))
                 elif r.kind in ('sleep', 'sleep_until'):
                     dates[r.clock] = dates.get(r.clock, 0) + 1
             elif r.t == 'S' and r.kind == 'actor_term':
